@@ -233,7 +233,7 @@ def run_case(i, rng, rec, tier, state):
     # one case in four judges an object with a past: reads, in-plane moves, resizes, a semi-axis or the rounding radius
     # assigned through the public API (the postconditions read the *current* vertices / radius / axes / centre)
     if (i // 4) % 4 == 1:
-        info["history"] = aging.age(s, rng, allow=("size", "axis", "radius", "move", "core"), inplane=True)
+        info["history"], _sib = aging.age_or_sibling(s, rng, allow=("size", "axis", "radius", "move", "core"), inplane=True)
         rec.cls("history:aged-object")
     # the same angles in the other forms an "array of angles" takes: integer arrays (whole radians), lists and tuples
     ints = rng.integers(-12, 13, size=12)
